@@ -524,6 +524,17 @@ impl<T: SizedShape, L: LenShape> Shape for FlatVec<T, L> {
         if xs.is_empty() && r % 3 == 1 {
             return vec::Empty.emplace_unchecked(bytes);
         }
+        if r % 6 == 5 && xs.len() <= 4 {
+            // the documented literal syntax (flat_vec! expands to vec::FromArray)
+            let x = |i: usize| T::from_val(&xs[i]);
+            return match xs.len() {
+                0 => <_ as Emplacer<Self>>::emplace_unchecked(flatty::flat_vec![], bytes),
+                1 => <_ as Emplacer<Self>>::emplace_unchecked(flatty::flat_vec![x(0)], bytes),
+                2 => <_ as Emplacer<Self>>::emplace_unchecked(flatty::flat_vec![x(0), x(1),], bytes),
+                3 => <_ as Emplacer<Self>>::emplace_unchecked(flatty::flat_vec![x(0), x(1), x(2)], bytes),
+                _ => <_ as Emplacer<Self>>::emplace_unchecked(flatty::flat_vec![x(0), x(1), x(2), x(3)], bytes),
+            };
+        }
         if r % 3 == 2 && xs.len() <= 6 {
             macro_rules! arr {
                 ($($n:literal),*) => {
